@@ -44,7 +44,7 @@ func c16Scenarios(tier string) []*Scenario {
 }
 
 func c16Commands() [][2]uint32 {
-	emb, err := refdict.LoadEmbedded("/repo")
+	emb, err := refdict.LoadEmbedded(repoRoot())
 	if err != nil {
 		panic(err)
 	}
